@@ -1,10 +1,320 @@
-(* C18Proofs — round trip of the encoder model (C18.v) through the decoder model
-   (C20.v) in strict mode. *)
+(* C18Proofs — strict Unmarshal of Marshal's output: for every type of the
+   universe (mutual induction over types and field lists), every parameter
+   set and every value of the documented domain [dom], the decoder model run on
+   the encoder model's output consumes exactly that output and returns the
+   normal form [norm] of the value. *)
 From Coq Require Import List NArith ZArith Bool Arith Lia.
 From Verif Require Import Harness.
 From VerifModel Require Import C20 C18.
+From VerifProof Require Import C18Header C18Ints C18Prims C18Field.
 Import ListNotations.
 Open Scope N_scope.
 
 Lemma bool_roundtrip (b : bool) : parse_bool [if b then 255 else 0] = Some b.
 Proof. destruct b; reflexivity. Qed.
+
+(* ------------------------------------------------------------------ domain *)
+
+Definition size_ok (bs : bytes) : Prop := blen bs < 2147483648.
+
+Definition implicit_tag (p : fparams) : bool :=
+  match ptag p with Some _ => negb (explicit p) | None => false end.
+
+(* the value fits the (non-recursive) type at a position with parameters p; tag is the universal tag makeField chose *)
+Definition prim_ok (p : fparams) (t : ty) (v : value) (tag : N) : Prop :=
+  match t, v with
+  | TBool, VBool _ => True
+  | TInt false, VInt z => (-9223372036854775808 <= z <= 9223372036854775807)%Z
+  | TInt true, VInt z | TEnum, VInt z => (-2147483648 <= z <= 2147483647)%Z
+  | TBig, VInt _ => True
+  | TBytes, (VBytes _ | VNull) => True
+  | TStr, VStr s =>
+      (stringType p = TagUTF8String -> utf8_valid s = true)
+      /\ (implicit_tag p = true -> stringType p = 0 -> forallb (fun b => is_printable b true true) s = true)
+  | TOid, VOid arcs => oid_ok arcs
+  | TBits, VBits bs n => bits_ok bs n
+  | TBits, VNull => True
+  | TTime, VTime tm => time_ok tm /\ dec_utag p TTime tag = tag
+  | TFlag, VFlag _ => True
+  | _, _ => False
+  end.
+
+(* an omitted field must be skipped by the decoder: nothing follows, or the decoder's tag test rejects what follows *)
+Definition skips (p : fparams) (t : ty) (rest : bytes) : Prop :=
+  match rest with
+  | [] => True
+  | _ => exists d, default_value p t = Some d /\ pre_field false p t rest = PDone d rest
+  end.
+
+Fixpoint dom (p : fparams) (t : ty) (v : value) {struct t} : Prop :=
+  params_ok p /\ (forall bs, make_field p t v = Some bs -> size_ok bs) /\
+  if omitted p t v then optional p = true
+  else
+    match t with
+    | TRaw => False
+    | TStruct raw0 fs =>
+        raw0 = false /\ match v with VStruct None vs => doms fs vs | _ => False end
+    | TSlice sn e =>
+        sn = false /\ pset p = false /\
+        match v with
+        | VNull => True
+        | VList vs => (fix all (vs : vals) : Prop :=
+                         match vs with VNil => True | VCons x r => dom no_params e x /\ all r end) vs
+        | _ => False
+        end
+    | _ => exists tag, field_tag p t v = Some tag /\ prim_ok p t v tag
+    end
+with doms (fs : fields) (vs : vals) {struct fs} : Prop :=
+  match fs, vs with
+  | FNil, VNil => True
+  | FCons p t r, VCons v vr =>
+      dom p t v /\ doms r vr
+      /\ (omitted p t v = true -> forall b, make_fields r vr = Some b -> skips p t b)
+  | _, _ => False
+  end.
+
+(* ------------------------------------------------------------------ normal form *)
+
+Fixpoint norm (p : fparams) (t : ty) (v : value) {struct t} : value :=
+  if omitted p t v then match default_value p t with Some d => d | None => v end
+  else
+    match t, v with
+    | TFlag, _ => VFlag true
+    | TTime, VTime tm => VTime (trunc_time tm)
+    | TBytes, VNull => VBytes []
+    | TBits, VNull => VBits [] 0
+    | TStruct _ fs, VStruct _ vs => VStruct None (norms fs vs)
+    | TSlice _ e, VNull => VList VNil
+    | TSlice _ e, VList vs =>
+        VList ((fix go (vs : vals) : vals :=
+                  match vs with VNil => VNil | VCons x r => VCons (norm no_params e x) (go r) end) vs)
+    | _, _ => v
+    end
+with norms (fs : fields) (vs : vals) {struct fs} : vals :=
+  match fs, vs with
+  | FCons p t r, VCons v vr => VCons (norm p t v) (norms r vr)
+  | _, _ => VNil
+  end.
+
+(* ------------------------------------------------------------------ the encoder's tag *)
+
+Ltac tle := first [lia | (vm_compute; discriminate)].
+
+Lemma field_tag_fits p t v tag :
+  params_ok p -> t <> TRaw -> field_tag p t v = Some tag -> tag_fits p t tag /\ tag <= 30.
+Proof.
+  intros (Hpt & Hap & Hst & Htt) Hraw H. unfold field_tag in H. unfold tag_fits.
+  destruct t; try congruence; cbn in H |- *;
+    repeat match type of H with
+           | (if ?c then None else _) = Some _ => destruct c eqn:?; [discriminate|]
+           end.
+  1-4, 6-7, 9-10: (destruct (pset p); try discriminate H; inversion H; subst; (split; [reflexivity | tle])).
+  - (* TStr *)
+    destruct (stringType p =? 0) eqn:E0.
+    + destruct (forallb _ (str_of v)).
+      * destruct (pset p); [discriminate|]. inversion H; subst. repeat split; auto. tle.
+      * destruct (utf8_valid (str_of v)); [|discriminate]. destruct (pset p); [discriminate|]. inversion H; subst.
+        repeat split; auto. tle.
+    + destruct (pset p) eqn:Es.
+      * destruct (stringType p =? TagSequence) eqn:E16; [|discriminate].
+        apply N.eqb_eq in E16. destruct Hst as [E|[E|[E|[E|E]]]]; rewrite E in E16; discriminate.
+      * inversion H; subst. split; [split; [reflexivity|]|].
+        -- apply N.eqb_neq in E0. destruct Hst as [E|[E|[E|[E|E]]]]; try congruence; rewrite E; auto.
+        -- destruct Hst as [E|[E|[E|[E|E]]]]; rewrite E; tle.
+  - (* TTime *)
+    destruct ((timeType p =? TagGeneralizedTime) || outside_utc (time_of v));
+      (destruct (pset p); [discriminate|]); inversion H; subst; repeat split; auto; tle.
+  - (* TStruct *) destruct (pset p); inversion H; subst; (split; [reflexivity | tle]).
+  - (* TSlice *)
+    destruct setname; cbn in H; destruct (pset p); try discriminate H; inversion H; subst; (split; [reflexivity | tle]).
+Qed.
+
+(* ------------------------------------------------------------------ omitted fields *)
+
+Lemma parse_field_pdone perm p t bs v r :
+  pre_field perm p t bs = PDone v r -> parse_field perm p t bs = Some (v, r).
+Proof. intros H. destruct t; cbn [parse_field]; now rewrite H. Qed.
+
+Lemma parse_field_omitted p t rest :
+  optional p = true -> skips p t rest ->
+  exists d, default_value p t = Some d /\ parse_field false p t rest = Some (d, rest).
+Proof.
+  intros Ho Hs. destruct rest as [|b r].
+  - unfold default_value at 1. rewrite Ho. eexists. split; [reflexivity|].
+    apply parse_field_pdone. unfold pre_field, default_value. now rewrite Ho.
+  - destruct Hs as (d & Hd & Hp). exists d. split; [assumption|]. now apply parse_field_pdone.
+Qed.
+
+(* ------------------------------------------------------------------ non-recursive types *)
+
+Definition is_prim (t : ty) : Prop :=
+  match t with TStruct _ _ | TSlice _ _ | TRaw => False | _ => True end.
+
+Lemma parse_field_prim p t bs utag h inner rest full :
+  is_prim t -> pre_field false p t bs = PBody utag h inner rest full ->
+  parse_field false p t bs =
+  match parse_prim false t utag h inner full with Some v => Some (v, rest) | None => None end.
+Proof. intros Hp H. destruct t; try contradiction; cbn [parse_field]; now rewrite H. Qed.
+
+(* the body makeBody writes for a non-recursive type *)
+Definition prim_body (p : fparams) (t : ty) (v : value) : option bytes :=
+  match t, v with
+  | TFlag, _ => Some []
+  | TTime, VTime tm =>
+      if (timeType p =? TagGeneralizedTime) || outside_utc tm then make_gentime tm else make_utctime tm
+  | TBits, VBits bs n => Some (make_bits bs n)
+  | TBits, VNull => Some (make_bits [] 0)
+  | TOid, VOid arcs => make_oid arcs
+  | TOid, VNull => make_oid []
+  | TBig, VInt z => Some (make_bigint z)
+  | TBool, VBool b => Some [if b then 255 else 0]
+  | (TInt _ | TEnum), VInt z => Some (int_bytes z)
+  | TBytes, VBytes b => Some b
+  | TBytes, VNull => Some []
+  | TStr, VStr s => make_string (stringType p) s
+  | _, _ => None
+  end.
+
+Lemma make_field_prim p t v :
+  is_prim t -> omitted p t v = false ->
+  make_field p t v =
+  match field_tag p t v with
+  | None => None
+  | Some tag => match prim_body p t v with Some body => Some (tag_body p t tag body) | None => None end
+  end.
+Proof.
+  intros Hp Ho. destruct t; try contradiction; cbn [make_field]; rewrite Ho;
+    destruct (field_tag p _ v) as [tag|]; try reflexivity; cbn [prim_body]; destruct v; reflexivity.
+Qed.
+
+Lemma field_tag_str p s tag : params_ok p -> field_tag p TStr (VStr s) = Some tag ->
+  pset p = false /\
+  (if stringType p =? 0
+   then if forallb (fun b => (b <? 128) && is_printable b false false) s then Some TagPrintableString
+        else if utf8_valid s then Some TagUTF8String else None
+   else Some (stringType p)) = Some tag.
+Proof.
+  intros (_ & _ & Hst & _). unfold field_tag. cbn [universal_type str_of].
+  repeat match goal with |- (if ?c then None else _) = _ -> _ => destruct c; [discriminate|] end.
+  change (TagPrintableString =? TagPrintableString) with true. cbv iota.
+  destruct (stringType p =? 0) eqn:E0.
+  - destruct (forallb _ s).
+    + destruct (pset p); [discriminate|]. intros H. now split.
+    + destruct (utf8_valid s); [|discriminate]. destruct (pset p); [discriminate|]. intros H. now split.
+  - destruct (pset p); [|intros H; now split].
+    destruct Hst as [E|[E|[E|[E|E]]]]; rewrite E; discriminate.
+Qed.
+
+Lemma field_tag_time p tm tag : field_tag p TTime (VTime tm) = Some tag ->
+  pset p = false /\
+  tag = (if (timeType p =? TagGeneralizedTime) || outside_utc tm then TagGeneralizedTime else TagUTCTime).
+Proof.
+  unfold field_tag. cbn [universal_type time_of].
+  repeat match goal with |- (if ?c then None else _) = _ -> _ => destruct c; [discriminate|] end.
+  change (TagUTCTime =? TagPrintableString) with false. change (TagUTCTime =? TagUTCTime) with true. cbv iota.
+  destruct ((timeType p =? TagGeneralizedTime) || outside_utc tm);
+    (destruct (pset p); [discriminate|]); intros H; inversion H; now split.
+Qed.
+
+(* the decoder's arm of the type switch inverts the body *)
+Lemma parse_prim_body p t v tag body h full :
+  is_prim t -> params_ok p -> field_tag p t v = Some tag -> prim_ok p t v tag -> prim_body p t v = Some body ->
+  parse_prim false t (dec_utag p t tag) h body full =
+  Some match t, v with
+       | TFlag, _ => VFlag true
+       | TTime, VTime tm => VTime (trunc_time tm)
+       | TBytes, VNull => VBytes []
+       | TBits, VNull => VBits [] 0
+       | _, _ => v
+       end.
+Proof.
+  intros Hp Hpar Hft Hok Hb.
+  destruct t; try contradiction; destruct v; try (destruct w32); cbn [prim_ok] in Hok; try contradiction; cbn [prim_body] in Hb; cbn [parse_prim dec_utag].
+  - (* TBool *) injection Hb as <-. now rewrite bool_roundtrip.
+  - (* TInt true *) injection Hb as <-. now rewrite int32_roundtrip.
+  - (* TInt false *) injection Hb as <-. now rewrite int64_roundtrip.
+  - (* TBig *) injection Hb as <-. now rewrite bigint_roundtrip.
+  - (* TEnum *) injection Hb as <-. now rewrite int32_roundtrip.
+  - (* TStr *)
+    destruct Hok as (Hu & Hi). destruct (field_tag_str p s tag Hpar Hft) as (Hps & Htag).
+    destruct Hpar as (Hpt & Hap & Hst & Htt).
+    destruct (stringType p =? 0) eqn:E0.
+    + (* untyped *)
+      apply N.eqb_eq in E0.
+      assert (Hms : make_string (stringType p) s = Some s) by (rewrite E0; reflexivity).
+      rewrite Hms in Hb. injection Hb as <-.
+      destruct (ptag p) as [pt|] eqn:Ep.
+      * destruct (explicit p) eqn:Ee.
+        -- now rewrite (untyped_string_roundtrip s tag Htag).
+        -- rewrite E0. cbn [N.eqb negb].
+           change (parse_string false TagPrintableString s) with (parse_printable false s).
+           unfold parse_printable. rewrite Hi; [reflexivity| |assumption].
+           unfold implicit_tag. now rewrite Ep, Ee.
+      * now rewrite (untyped_string_roundtrip s tag Htag).
+    + (* a string type was asked for *)
+      injection Htag as <-.
+      assert (Hcases : stringType p = TagIA5String \/ stringType p = TagPrintableString \/ stringType p = TagNumericString
+                       \/ (stringType p = TagUTF8String /\ utf8_valid s = true)).
+      { apply N.eqb_neq in E0. destruct Hst as [E|[E|[E|[E|E]]]]; try congruence; auto. }
+      destruct (string_roundtrip _ s body Hcases Hb) as (-> & Hpsr).
+      assert (Hut : (if match ptag p with None => true | Some _ => explicit p end then stringType p
+                     else if negb (stringType p =? 0) then stringType p else TagPrintableString) = stringType p).
+      { rewrite E0. cbn [negb]. destruct (ptag p); [destruct (explicit p)|]; reflexivity. }
+      rewrite Hut, Hpsr. reflexivity.
+  - (* TOid *) now rewrite (oid_roundtrip arcs body Hok Hb).
+  - (* TBits VNull *) injection Hb as <-. reflexivity.
+  - (* TBits *) injection Hb as <-. now rewrite bits_roundtrip.
+  - (* TTime *)
+    destruct Hok as (Htm & Hdec). unfold dec_utag in Hdec. rewrite Hdec.
+    destruct (field_tag_time p t tag Hft) as (Hps & Htag).
+    destruct ((timeType p =? TagGeneralizedTime) || outside_utc t) eqn:Eg; subst tag.
+    + change (TagGeneralizedTime =? TagUTCTime) with false. cbv iota.
+      now rewrite (gentime_roundtrip t body Htm Hb).
+    + change (TagUTCTime =? TagUTCTime) with true. cbv iota.
+      now rewrite (utctime_roundtrip t body Htm Hb).
+  - (* TBytes VNull *) injection Hb as <-. reflexivity.
+  - (* TBytes *) injection Hb as <-. reflexivity.
+  - (* TFlag *) reflexivity.
+Qed.
+
+Lemma norm_prim p t v :
+  is_prim t -> omitted p t v = false ->
+  norm p t v = match t, v with
+               | TFlag, _ => VFlag true
+               | TTime, VTime tm => VTime (trunc_time tm)
+               | TBytes, VNull => VBytes []
+               | TBits, VNull => VBits [] 0
+               | _, _ => v
+               end.
+Proof. intros Hp Ho. destruct t; try contradiction; cbn [norm]; rewrite Ho; destruct v; reflexivity. Qed.
+
+Theorem prim_roundtrip p t v bs rest :
+  is_prim t -> dom p t v -> make_field p t v = Some bs -> (bs = [] -> skips p t rest) ->
+  parse_field false p t (bs ++ rest) = Some (norm p t v, rest).
+Proof.
+  intros Hp Hd Hm Hs.
+  assert (Hd' : params_ok p /\ (forall bs, make_field p t v = Some bs -> size_ok bs) /\
+                if omitted p t v then optional p = true
+                else exists tag, field_tag p t v = Some tag /\ prim_ok p t v tag).
+  { destruct t; try contradiction; exact Hd. }
+  clear Hd. destruct Hd' as (Hpar & Hsz & Hd).
+  destruct (omitted p t v) eqn:Eo.
+  - (* omitted *)
+    assert (bs = []).
+    { destruct t; try contradiction; cbn [make_field] in Hm; rewrite Eo in Hm; congruence. }
+    subst bs. cbn [app].
+    destruct (parse_field_omitted p t rest Hd (Hs eq_refl)) as (d & Hdv & Hpf).
+    rewrite Hpf. f_equal. f_equal.
+    destruct t; try contradiction; cbn [norm]; rewrite Eo, Hdv; reflexivity.
+  - destruct Hd as (tag & Hft & Hok).
+    rewrite (make_field_prim p t v Hp Eo), Hft in Hm.
+    destruct (prim_body p t v) as [body|] eqn:Eb; [|discriminate]. injection Hm as <-.
+    assert (Hraw : t <> TRaw) by (intros ->; contradiction).
+    destruct (field_tag_fits p t v tag Hpar Hraw Hft) as (Hfit & Htag30).
+    assert (Hlen : blen (tag_body p t tag body) < 2147483648).
+    { apply Hsz. rewrite (make_field_prim p t v Hp Eo), Hft, Eb. reflexivity. }
+    rewrite (parse_field_prim p t _ _ _ _ _ _ Hp
+               (pre_field_tagged p t tag body rest Hpar Hfit ltac:(lia) Hlen Hraw)).
+    rewrite (parse_prim_body p t v tag body _ _ Hp Hpar Hft Hok Eb).
+    now rewrite (norm_prim p t v Hp Eo).
+Qed.
